@@ -30,6 +30,14 @@ instance, exhaustively over every schedule of the signer by MigrillianLag.cfg; M
 and the lag scenarios of the random runs carry it to the real Controller (the harness's signer sleeps through the first
 cfg.lag root requests; vacuity guard: rounds that began with the root behind the position and new entries at the source);
 trace validation names the defect through the silent step RewindRange + invariant NoRepeat.
+The configuration SET is a dimension too (spec/migrate/MigrillianConfig.tla, a case-analysis module): a MigrillianConfig is a
+sequence of migration configs, each naming a source, a destination tree (log_id) and the deprecated, ignored log_backend_name
+(the process dials one --backend).  Laws: NoConflictingFeeds (from 'never cause ... conflicting duplicates': an accepted set has
+no two members feeding one tree from different sources), named clauses OneTreeOneMigration (the validator's comment: unique log
+ID, whatever the backend names and sources), SaneAccepted (single-config rules: URI, key, log ID > 0, batch size > 0, defined
+identity function) and UsableAccepted (refusal is not idle).  MigrillianConfigBackendKey.cfg (Key <- KeyWithBackend, a validator
+keyed by backend name + tree) must violate NoConflict.  Every exported case reaches core.ValidateConfig as a value and through
+core.LoadConfigFromFile as a text and a binary file, single members also core.ValidateMigrationConfig (TestConfigSets).
 """
 import json
 import os
@@ -60,6 +68,10 @@ ASSUME = [
     "RunStartsFromRoot: 'without gaps or repeats' is demanded of one run of the controller (Controller.Run carrying its position from "
     "round to round) - a new run after a failed pass, lost mastership or a restart of the process knows only the root and may submit "
     "again what the signer has not integrated (answered ALREADY_EXISTS); a batch answered ResourceExhausted was not submitted",
+    "configuration sets: log_backend_name is deprecated and ignored, migrillian dials the single --backend, so log_id alone names the "
+    "destination tree (BackendNameIgnored); two migrations naming one tree are refused even from the same source (OneTreeOneMigration, "
+    "the validator's documented rule); sets of 1..3 members; the empty set and a configuration without migration_configs are not asserted; "
+    "which member / rule the error message names is not asserted",
     "sizes: source <= 4 (+2 growth), batch 1..3, fetchers/submitters 1..3, <= 2 faults exhaustively (3 in simulation and random scenarios)",
 ]
 
@@ -96,6 +108,10 @@ def run(ctx, replay=None):
             rp = json.load(f)
         data = rp.get("replay") or {}
         probe = {k: data[k] for k in ("cfg", "faults", "restarts") if k in data}
+        if "members" in data:
+            path = ctx.write_ndjson("config-case.ndjson", [config_case(data["members"], data.get("expect", "accept"))])
+            ctx.go_test("vt/c20", run="TestConfigSets$", env={"VERIF_CASES": path}, toolchain="go1.26", race=True, name="c20config")
+            return
         if "cfg" not in probe:
             raise Infra("replay file carries no scenario")
         ctx.go_test("vt/c20", run="TestProbe$", env={"VERIF_PROBE": json.dumps(probe)}, toolchain="go1.26", race=True, name="c20probe")
@@ -115,7 +131,49 @@ def run(ctx, replay=None):
                         "dimension of the specification does not distinguish a migrator that runs beyond the verified STH" % (r.violated, r.rc))
         rewind_refuted(ctx)
         ctx.exhaustive = True
+    config_sets(ctx)
     conformance(ctx)
+
+
+def config_case(members, expect):
+    n = len(members)
+    pairs = [(members[i], members[j]) for i in range(n) for j in range(n) if i != j]
+    return {"members": members, "expect": expect, "n": n,
+            "sharedtree": any(a["id"] == b["id"] for a, b in pairs),
+            "sharedkeyb": any(a["id"] == b["id"] and a["backend"] == b["backend"] for a, b in pairs),
+            "conflict": any(a["id"] == b["id"] and a["uri"] != b["uri"] for a, b in pairs)}
+
+
+def config_sets(ctx):
+    """The configuration-set dimension: MigrillianConfig.tla exhaustively (laws as invariants), the refutation instance, every
+    case into the real validator / loader."""
+    r = ctx.tlc("migrate", "MCMigrillianConfig", "MigrillianConfig.cfg", workers=1, timeout=1800)
+    cases = r.records.get("CASE", [])
+    if len(cases) < 5000:
+        raise Infra("MigrillianConfig.cfg exported only %d configuration sets" % len(cases))
+    # vacuity guards: the classes that tell validators apart must be among the cases
+    def some(f):
+        return any(f(c) for c in cases)
+    need = {
+        "two sane members, one tree, different backend names, different sources": lambda c: c["expect"] == "duplicate" and c["n"] == 2 and not c["sharedkeyb"] and c["conflict"],
+        "two sane members, one tree, different backend names, same source": lambda c: c["expect"] == "duplicate" and c["n"] == 2 and not c["sharedkeyb"] and not c["conflict"],
+        "one tree, equal backend names": lambda c: c["expect"] == "duplicate" and c["sharedkeyb"],
+        "three members, first and last share the tree": lambda c: c["expect"] == "duplicate" and c["n"] == 3 and c["members"][0]["id"] == c["members"][2]["id"] != c["members"][1]["id"],
+        "accepted set of three with equal backend names and sources": lambda c: c["expect"] == "accept" and c["n"] == 3 and len({(m["backend"], m["uri"]) for m in c["members"]}) == 1,
+        "insane member behind a sane one": lambda c: c["expect"] == "member" and c["n"] == 2 and c["members"][0]["id"] == 1 and c["members"][0]["key"] and c["members"][1]["batch"] <= 0,
+    }
+    for what, f in need.items():
+        if not some(f):
+            raise Infra("configuration-set cases do not cover: %s" % what)
+    r = ctx.tlc("migrate", "MCMigrillianConfig", "MigrillianConfigBackendKey.cfg", workers=1, timeout=600, expect_violation=True, count=False)
+    if r.violated != "NoConflict":
+        raise Infra("MigrillianConfigBackendKey.cfg (Key <- KeyWithBackend) does not violate NoConflict (violated=%s rc=%d): the backend-name "
+                    "dimension of the configuration sets does not distinguish a validator keyed by backend name + tree ID" % (r.violated, r.rc))
+    path = ctx.write_ndjson("config-cases.ndjson", cases)
+    _, _, reps = ctx.go_test("vt/c20", run="TestConfigSets$", env={"VERIF_CASES": path}, toolchain="go1.26", race=True, timeout=1500, name="c20config")
+    n = sum(rep.get("replayed", 0) for rep in reps)
+    if reps and n != len(cases):
+        raise Infra("TestConfigSets replayed %d of %d configuration sets" % (n, len(cases)))
 
 
 def rewind_refuted(ctx):
